@@ -392,7 +392,7 @@ class Model(bfs.Model):
             ops.append(['V_copy', how, -1e-9])
         ops += [['A_freeze', -1e-14], ['A_thaw'], ['M_from_A'], ['M_imat_A'], ['M_imat_W'], ['M_transpose'], ['M_inverse'],
                 ['FM_mat'], ['M_freeze'], ['M_thaw']]
-        for kv in (-1e-9, 1e-9, -4e-7, 4e-7, 0.5, 1000000.5, -0.0):
+        for kv in (-1e-9, 1e-9, -4e-7, 4e-7, 0.5, 1000000.5, -0.0, 5e-05, 1.234e-05, 6e-07, 1e16, 123456789012345678.0):
             ops.append(['V_new', kv, -kv, 0.0])
             ops.append(['V_setx', kv])
             ops.append(['V_iadd', kv])
